@@ -45,10 +45,11 @@ def run(ctx: common.Ctx):
 
   import os, time
   t_phase = [time.time()]
+  seconds = {}
 
   def phase(name):
     now = time.time()
-    ctx.dist[f'seconds:{name}'] = round(now - t_phase[0], 1)
+    seconds[name] = round(now - t_phase[0], 1)
     if os.environ.get('C14_TIMING'):
       print(f'[C14] {name}: {now - t_phase[0]:.1f}s', flush=True)
     t_phase[0] = now
@@ -321,7 +322,7 @@ def run(ctx: common.Ctx):
   if not ctx.quick:
     for n in (36, 48, 60, 64, 72, 96, 120, 128, 144, 180, 210, 240, 243, 256, 360):
       fs = D.ordered_factorisations(n)
-      pick = rng.choice(len(fs), size=min(len(fs), 40), replace=False)
+      pick = rng.choice(len(fs), size=min(len(fs), 25), replace=False)
       facs.extend(fs[int(i)] for i in pick)
   ctx.notes.append(f'nested scan: {len(facs)} ordered factorisations (all of every length <= {maxlen})')
   xs_kinds = ['array', 'dict', 'tuple', 'none', 'matrix']
@@ -346,7 +347,7 @@ def run(ctx: common.Ctx):
                      'nested_checkpoint_scan != jax.lax.scan', inp)
 
   # malformed / corner stream: the validation logic
-  nmal = ctx.n(40, 300)
+  nmal = ctx.n(40, 200)
   for mi in range(nmal):
     mode = ['length-mismatch', 'xs-short', 'xs-long', 'leaf-mismatch', 'empty-nesting', 'empty-nesting-1',
             'zero-outer', 'zero-inner', 'zero-only', 'zero-middle', 'length-ok'][mi % 11]
@@ -568,7 +569,7 @@ def run(ctx: common.Ctx):
 
   phase('model')
   # ================================================================== gradient probes (sentinel)
-  ngrad = ctx.n(10, 120)
+  ngrad = ctx.n(10, 80)
   for gi in range(ngrad):
     f0 = facs[int(rng.integers(0, len(facs)))]
     while int(np.prod(f0)) > 12 or len(f0) < 2:
@@ -576,7 +577,7 @@ def run(ctx: common.Ctx):
     ls = list(f0) if gi % 3 else with_ones(f0)
     p = int(np.prod(ls))
     dc, dx = int(rng.integers(1, 4)), int(rng.integers(1, 3))
-    kind = str(rng.choice(['affine', 'noncommuting', 'mixed', 'permutation', 'poly']))
+    kind = ['poly', 'affine', 'noncommuting', 'mixed', 'permutation'][gi % 5]
     if kind == 'poly':
       prog = [('A', rng.integers(-1, 2, (dc + dx, dc + dx)) / 2.0, rng.integers(-1, 2, dc + dx).astype(float)),
               ('P', int(rng.integers(0, dc)), int(rng.integers(0, dc + dx))),
@@ -631,6 +632,8 @@ def run(ctx: common.Ctx):
   phase('gradients')
   if not ctx.quick:
     ctx.leanchecker(['DinoProofs.Properties.C14'])
+    phase('leanchecker')
+  ctx.notes.append(f'seconds per phase: {seconds}')
   return ctx.finish(RULE, 'theorems are about the Lean model Dino.Comb with abstract step functions; jax.lax.scan is '
                     'modelled as the sequential loop and jax.checkpoint as the identity on values (gradients of '
                     'nested vs flat scan are compared by probes only); sinc / sin are external; the DFI total '
